@@ -69,10 +69,10 @@ def path_fold(engine, ctx, params):
 def confirm(v, oracle):
     if v['stage'] == 'fold':
         st, p = oracle.ask('lex_fold_value', v['fmt'], v['tokens'])
-        return {'confirmed': st == 'panic', 'why': 'native fold returns', 'replay': {'op': 'lex_fold_value', 'args': [v['fmt'], v['tokens']]}, 'what': 'folding %s panics: %s' % (v['tokens'][:120], p)}
+        return {'confirmed': st in ('panic', 'timeout'), 'why': 'native fold returns', 'replay': {'op': 'lex_fold_value', 'args': [v['fmt'], v['tokens']]}, 'what': 'folding %s panics: %s' % (v['tokens'][:120], p)}
     op = 'lex_parse' if v['stage'].endswith(' parse') else 'lex_parse_term'
     st, p = oracle.ask(op, v['fmt'], hexs(v['input']))
-    return {'confirmed': st == 'panic', 'why': 'native lexical parser returns', 'replay': {'op': op, 'args': [v['fmt'], hexs(v['input'])], 'input': show(v['input'])}, 'what': '%s %s(%r) panics: %s' % (v['fmt'], op, show(v['input']), p)}
+    return {'confirmed': st in ('panic', 'timeout'), 'why': 'native lexical parser returns', 'replay': {'op': op, 'args': [v['fmt'], hexs(v['input'])], 'input': show(v['input'])}, 'what': '%s %s(%r) panics: %s' % (v['fmt'], op, show(v['input']), p)}
 
 def key_of(v): return '%s:%s@%s' % (v['stage'], v['kind'], v['where'].split('::')[-1])
 
@@ -145,10 +145,10 @@ def main(tier, seed):
         plist = []
         for s in strs:
             cps = [ord(c) for c in s]
-            for i in range(0, len(cps) + 1, 2 if quick else 1):
+            for i in range(0, len(cps) + 1):
                 plist.append(dict(fmt=fmt, entry='parse', template=cps[:i] + [None]))
                 if i < len(cps): plist.append(dict(fmt=fmt, entry='parse', template=cps[:i] + [None] + cps[i + 1:]))
-        R.run_query(Query('lexical-corrupt/' + fmt, 'c05', 'path_parse', plist, '%d samples cut / corrupted at every %sposition' % (len(strs), '2nd ' if quick else '')), confirm, key_of)
+        R.run_query(Query('lexical-corrupt/' + fmt, 'c05', 'path_parse', plist, '%d samples cut / corrupted at every position' % len(strs)), confirm, key_of)
         kw = keyword_table(it, get_format(it, fmt))
         shapes = fold_shapes(kw)
         plist = []
